@@ -16,6 +16,7 @@ import logging
 
 from lib.verif import coq_z
 from translate import c01_fieldspecs as T
+from translate import c01_source as S
 
 PROP_FILES = ['Props/C01.v']
 LEVEL = 'proof'
@@ -34,6 +35,11 @@ Definition mk (k c : Z) (vs : list value) :=
   | Some x => match build registry x vs with Some p => packet_bytes registry p | None => None end
   | None => None
   end.
+Definition mkp (op : Z) (vs : list value) :=
+  match find_phy registry op with
+  | Some pc => match build_phy pc vs with Some p => packet_bytes registry p | None => None end
+  | None => None
+  end.
 Definition mkr (n : string) (num op : Z) (vs : list value) :=
   packet_bytes registry (PCmdComplete [VInt num; VInt op] n vs []).
 '''
@@ -43,6 +49,7 @@ _STATE = {}
 
 def regen(ctx):
     hci, infos = T.regen(ctx)
+    S.regen(ctx)        # source pins (after the registering modules are imported)
     _STATE['hci'] = hci
     _STATE['infos'] = infos
 
@@ -322,7 +329,7 @@ def describe(hci, infos_by, p):
         if info is None or type(p) is not info.pycls:
             return ['?', type(p).__name__]
         if info.custom:
-            return ['PCustomClass', T.KIND_COMMAND, p.op_code]
+            return ['PCommand', p.op_code, True, phy_flat(info, {n: getattr(p, n) for n in phy_names(info)})]
         return ['PCommand', p.op_code, True, canon_obj(info.fields, p)]
     if isinstance(p, H.HCI_LE_Meta_Event):
         if type(p) is H.HCI_LE_Meta_Event:
@@ -584,8 +591,14 @@ def run(ctx):
         if i.kind == T.KIND_COMMAND and i.ret_name:
             cmds_for_ret.setdefault(i.ret_name, []).append(i.code)
 
+    lenient_ops = {i.code for i in infos if i.kind == T.KIND_COMMAND and i.custom_return}
     for info in infos:
         if info.custom:
+            for k in range(ctx.n(12, 300)):
+                kw = gen_custom(rng, hci, info)
+                vals = phy_flat(info, kw)
+                e = add_expr(f'mkp {info.code} {coq_values(vals)}')
+                cases.append(('phy', info, vals, e, None, None, k, kw))
             continue
         if info.kind == T.KIND_EVENT and info.code == 0x0E:
             continue        # Command Complete is exercised through every return-parameters class
@@ -631,7 +644,7 @@ def run(ctx):
             continue
         info, vals, e = c[1], c[2], c[3]
         try:
-            kw = kwargs_of(hci, info.fields, vals)
+            kw = c[7] if tag == 'phy' else kwargs_of(hci, info.fields, vals)
         except Exception as ex:
             _disagree(ctx, 'harness could not build keyword arguments', {'class': info.name, 'values': js(vals)}, None, repr(ex))
             continue
@@ -647,24 +660,31 @@ def run(ctx):
             ib = bytes(wrap(obj) if wrap else obj)
         except Exception:
             ib = None
-        ctx.count('class-cases.' + ['command', 'event', 'le-subevent', 'return-parameters', 'vendor-subevent'][info.kind])
+        ctx.count('class-cases.' + ('phy-mask-command' if tag == 'phy' else
+                                    ['command', 'event', 'le-subevent', 'return-parameters', 'vendor-subevent'][info.kind]))
         ctx.count('values.out-of-range' if tag == 'bad' else 'values.in-range')
         ser_checks.append((info, vals, tag, e, ib))
         if tag == 'bad':
             ctx.case(('bad', info.name, repr(vals)), bool(info.fields))
             ctx.count('serialise.' + ('rejected' if ib is None else 'accepted'))
             continue
-        ctx.case((info.name, repr(vals)), bool(info.fields),
+        ctx.case((info.name, repr(vals)), bool(info.fields) or tag == 'phy',
                  {'class': info.name, 'values': js(vals), 'bytes': ib.hex() if ib else None})
         # property oracle on the implementation
-        in_contract = not (tag == 'ret' and info.status_first and len(info.fields) > 1 and vals[0] != 0)
-        if ib is not None and in_contract:
+        in_contract = not (tag == 'ret' and info.status_first and len(info.fields) > 1 and vals[0] != 0
+                           and c[5] not in lenient_ops)
+        if tag == 'phy':
+            bad = oracle_custom(hci, info, kw)
+            if bad:
+                ctx.violation(bad[0], bad[1], {'kind': 'custom', 'class': info.name,
+                                               'values': {k_: js(_cv(v)) for k_, v in kw.items()}})
+        elif ib is not None and in_contract:
             bad, _ = oracle_fields(hci, info, kw, wrap)
             if bad:
                 ctx.violation(bad[0], bad[1], {'kind': 'fields', 'class': info.name, 'values': js(vals),
                                                'num': c[4] if tag == 'ret' else None, 'op': c[5] if tag == 'ret' else None})
         if ib is None:
-            if in_contract and _fits(info, vals):
+            if in_contract and tag != 'phy' and _fits(info, vals):
                 ctx.violation(f'{info.name}.build', f'{info.name}: in-range values cannot be serialised',
                               {'kind': 'fields', 'class': info.name, 'values': js(vals),
                                'num': c[4] if tag == 'ret' else None, 'op': c[5] if tag == 'ret' else None})
@@ -676,8 +696,60 @@ def run(ctx):
 
     # ---- data packets, unknown codes, custom classes
     todo.append(('data', None, b'', add2(b''), False))
-    for b, wf in gen_data_packets(rng, hci, ctx.n(150, 6000)):
-        todo.append(('data', None, b, add2(b), wf))
+    # ---- the whole spec vocabulary on ad-hoc field lists (arms no registered HCI class uses today:
+    # '>2', '>4', -2 ...; other protocol layers build HCI_Object field lists from them)
+    synth_checks = []
+    for si, pyfields in enumerate(SYNTHETIC_FIELDS):
+        fields = T.fields_of(hci, pyfields, f'synthetic{si}')
+        coqfs = T.coq_fields(fields)
+        for k in range(ctx.n(8, 200)):
+            vals = gen_fields(rng, hci, fields)
+            kw = kwargs_of(hci, fields, vals)
+            try:
+                ib = bytes(hci.HCI_Object(pyfields, **kw))
+            except Exception:
+                ib = None
+            e1 = add_expr(f'serialize_fields {coqfs} {coq_values(vals)}')
+            e2 = add_expr(f'parse_fields {coqfs} 0 {_cb(ib)}') if ib is not None else None
+            ctx.count('synthetic-field-lists')
+            ctx.case(('synthetic', si, repr(vals)), True)
+            back = None
+            if ib is not None:
+                try:
+                    d = hci.HCI_Object.dict_from_bytes(ib, 0, pyfields)
+                    back = canon_obj(fields, type('O', (), d)())
+                except Exception:
+                    back = 'rejected'
+                if back != vals:
+                    ctx.violation(f'synthetic{si}.roundtrip', f'HCI_Object with fields {pyfields!r}: built with {vals!r}, '
+                                  f'bytes {ib.hex()}, parsed back {back!r}',
+                                  {'kind': 'synthetic', 'index': si, 'values': js(vals)})
+            synth_checks.append((si, vals, e1, e2, ib, back))
+
+    data_checks = []
+    for entry in gen_data_packets(rng, hci, ctx.n(150, 6000)):
+        if entry[0] == 'raw':
+            todo.append(('data', None, entry[1], add2(entry[1]), entry[2]))
+            continue
+        _, dkind, f = entry
+        ctx.count('data-fields.' + dkind)
+        try:
+            obj, term = build_data_packet(hci, dkind, f)
+        except Exception as ex:
+            _disagree(ctx, 'data packet class cannot be constructed', {'kind': dkind, 'fields': repr(f)}, None, repr(ex))
+            continue
+        ib = impl_bytes(obj)
+        data_checks.append((dkind, f, add_expr(f'packet_bytes registry ({term})'), ib))
+        ctx.case(('data-fields', dkind, repr(f)), True)
+        if ib is None:
+            continue
+        # oracle, fields direction: the packet parses back equal, and to the same bytes
+        p2 = impl_parse(hci, ib)
+        if p2 is None or type(p2) is not type(obj) or not (p2 == obj) or impl_bytes(p2) != ib:
+            ctx.violation(f'{dkind}.fields', f'{type(obj).__name__}: built {obj!r}, bytes {ib.hex()}, parsed back {p2!r}',
+                          {'kind': 'data-fields', 'packet': dkind, 'fields': js(list(f) if not isinstance(f[-2], tuple) else
+                                                                           [*f[:-2], list(f[-2]), f[-1]])})
+        todo.append(('data', None, ib, add2(ib), True))
     sweep = gen_sweep(rng, infos, ctx.n(1, 4))
     for kind, code, known, b in sweep:
         todo.append(('sweep', (kind, code, known), b, add2(b), False))
@@ -686,11 +758,27 @@ def run(ctx):
     allres = ctx.coq_eval(REQUIRES, exprs + exprs2, preamble=PREAMBLE, shard=_shard(len(exprs) + len(exprs2)))
     model, model2 = allres[:len(exprs)], allres[len(exprs):]
     ctx.log('model evaluated:', len(exprs), 'build +', len(exprs2), 'parse expressions')
+    for si, vals, e1, e2, ib, back in synth_checks:
+        mb = opt_bytes(model[e1])
+        if mb != ib:
+            _disagree(ctx, 'synthetic field list: serialisation differs', {'index': si, 'values': js(vals)},
+                      mb.hex() if mb is not None else None, ib.hex() if ib is not None else None)
+        if e2 is not None:
+            m = model[e2]
+            mvals = [from_coq_value(v) for v in m[1][0]] if m is not None else 'rejected'
+            if mvals != back:
+                _disagree(ctx, 'synthetic field list: parse differs', {'index': si, 'bytes': ib.hex()}, _jd(mvals), _jd(back))
+    for dkind, f, e, ib in data_checks:
+        mb = opt_bytes(model[e])
+        if ib != mb:
+            _disagree(ctx, 'data packet serialisation differs', {'kind': dkind, 'fields': repr(f)},
+                      mb.hex() if mb is not None else None, ib.hex() if ib is not None else None)
     for info, vals, tag, e, ib in ser_checks:
         mb = opt_bytes(model[e])
         if ib != mb:
             _disagree(ctx, 'serialisation differs', {'class': info.name, 'values': js(vals), 'tag': tag},
                       mb.hex() if mb is not None else None, ib.hex() if ib is not None else None)
+    alive = {}
     for name, info, b, e, wellformed in todo:
         m = model2[e]
         p = impl_parse(hci, b)
@@ -711,14 +799,23 @@ def run(ctx):
             mdesc = describe_model(m[1][0])
             mbytes = opt_bytes(m[1][1])
         ibytes = impl_bytes(p) if p is not None else None
-        custom = mdesc is not None and mdesc[0] in ('PCustomClass', 'PCmdCompleteCustom')
-        if custom:
-            pass        # layout of the hand-written classes is not modelled
-        elif idesc != mdesc or ibytes != mbytes:
+        if idesc != mdesc or ibytes != mbytes:
             _disagree(ctx, 'parse / re-serialise differs (%s)' % name,
                          {'class': info.name if info else None, 'bytes': b.hex()},
                          [_jd(mdesc), mbytes.hex() if mbytes is not None else None],
                          [_jd(idesc), ibytes.hex() if ibytes is not None else None])
+        # oracle, several packets alive at once: parsing a later packet of the same class must not
+        # change what an earlier one serialises to (the parameter cache is per instance)
+        if name == 'orig' and p is not None and ibytes is not None:
+            key = type(p).__name__
+            prev = alive.get(key)
+            if prev is not None:
+                pb = impl_bytes(prev[0])
+                if pb != prev[1]:
+                    ctx.violation(f'{key}.stale', f'{key}: packet parsed from {prev[2].hex()} serialised as {prev[1].hex()}, '
+                                  f'but as {pb.hex() if pb is not None else None} after {b.hex()} was parsed',
+                                  {'kind': 'pair', 'first': prev[2].hex(), 'second': b.hex()})
+            alive[key] = (p, ibytes, b)
         # oracle, bytes direction: a well-formed packet re-serialises to itself
         if wellformed:
             if p is None:
@@ -734,18 +831,6 @@ def run(ctx):
             if bad:
                 ctx.violation(f'sweep.{skind}.{scode:#x}', bad, {'kind': 'sweep', 'hex': b.hex(), 'code_kind': skind,
                                                                 'code': scode, 'registered': sknown})
-
-    # ---- hand-written classes: oracle only
-    for info in infos:
-        if info.custom:
-            for _ in range(ctx.n(40, 1500)):
-                kw = gen_custom(rng, hci, info)
-                ctx.count('custom-class-cases')
-                ctx.case((info.name, repr(sorted(kw.items(), key=lambda x: x[0]))), True)
-                bad = oracle_custom(hci, info, kw)
-                if bad:
-                    ctx.violation(bad[0], bad[1], {'kind': 'custom', 'class': info.name,
-                                                   'values': {k: js(_cv(v)) for k, v in kw.items()}})
 
 
 def _disagree(ctx, what, case, model, impl):
@@ -810,6 +895,13 @@ def unknown_oracle(hci, p, b):
     return None
 
 
+# ad-hoc field lists covering every arm of parse_field / serialize_field
+SYNTHETIC_FIELDS = [
+    [('a', '>2'), ('b', '>4'), ('c', -2), ('d', -1), ('e', 3), ('f', 4), ('g', 2), ('h', 1), ('i', 'v'), ('j', 5),
+     ('k', {'size': 3}), ('l', 256), ('m', '*')],
+    [('n', 1), [('x', '>2'), ('y', -2), ('z', 'v')], ('t', '>4'), [('u', 3), ('w', -1)]],
+]
+
 SWEEP_LENGTHS = [0, 1, 7, 120, 255]
 
 
@@ -846,6 +938,11 @@ def gen_sweep(rng, infos, reps):
                 claimed = any(sub == rsub and len(params) >= 2 and params[1] in ids for rsub, ids in rules)
                 out.append(('vendor', sub, claimed, bytes([4, 0xFF, len(params)]) + params))
         out.append(('vendor', -1, False, bytes([4, 0xFF, 0])))
+        for rsub, ids in rules:                 # payloads a factory claims (random ones rarely are)
+            for rid in ids:
+                for n in (0, 7, 120, 200):
+                    params = bytes([rsub, rid]) + rng.bytes(n)
+                    out.append(('vendor', rsub, True, bytes([4, 0xFF, len(params)]) + params))
         cands = [0x0000, 0x0001, 0x03FF, 0x0400, 0x0402, 0x07FF, 0x0800, 0x0BFF, 0x0C00, 0x0C02, 0x0FFF, 0x1000,
                  0x13FF, 0x1400, 0x17FF, 0x1800, 0x1FFF, 0x2000, 0x20FF, 0x23FF, 0x2400, 0x3FFF, 0x4000, 0x7FFF,
                  0x8000, 0xFBFF, 0xFC00, 0xFC02, 0xFC7F, 0xFCFF, 0xFD00, 0xFD52, 0xFDFF, 0xFE00, 0xFFFE, 0xFFFF]
@@ -943,73 +1040,97 @@ def gen_unknown(rng, hci, infos, n):
 
 
 def gen_data_packets(rng, hci, n):
-    """(bytes, well-formed?) for ACL / SCO / ISO, built by the real classes from boundary
-    field values, plus raw header words."""
+    """ACL / SCO / ISO cases: ('fields', kind, field tuple) to be built by the real classes from
+    boundary field values, and ('raw', bytes, well-formed?) header words."""
     out = []
     H12 = [0, 1, 0x0FF, 0x100, 0x7FF, 0x800, 0xEFF, 0xFFE, 0xFFF]
     for k in range(n):
         r = k % 6
         data = rng.bytes(rng.choice([0, 1, 2, 27, 255, 256, 300]) if rng.chance(1, 3) else rng.below(12))
-        try:
-            if r == 0:
-                p = hci.HCI_AclDataPacket(rng.choice(H12), rng.below(4), rng.below(4), len(data), data)
-                out.append((bytes(p), True))
-            elif r == 1:
-                data = data[:255]
-                p = hci.HCI_SynchronousDataPacket(rng.choice(H12), hci.HCI_SynchronousDataPacket.Status(rng.below(4)),
-                                                  len(data), data)
-                out.append((bytes(p), True))
-            elif r == 2:
-                pb = rng.below(4)
-                ts = rng.choice([None, 0, 1, 0xFFFFFFFF, 0x01020304])
-                sdu = pb in (0, 2)
-                p = hci.HCI_IsoDataPacket(
-                    connection_handle=rng.choice(H12), data_total_length=rng.choice([len(data), 0, 0x3FFF]),
-                    iso_sdu_fragment=data, pb_flag=pb, time_stamp=ts,
-                    packet_sequence_number=rng.choice([0, 1, 0xFFFF, 0x0102]) if sdu else None,
-                    iso_sdu_length=rng.choice([0, 1, 0xFFF, 0x123, len(data)]) if sdu else None,
-                    packet_status_flag=rng.choice([0, 1, 2]) if sdu else None)
-                out.append((bytes(p), True))
-            elif r == 3:
-                # raw ISO with any header words; well-formed when the reserved bits are zero
-                info = rng.below(65536)
-                total = rng.below(65536)
-                body = rng.bytes(rng.below(14))
-                b = bytes([5]) + info.to_bytes(2, 'little') + total.to_bytes(2, 'little') + body
-                pb = (info >> 12) & 3
-                ts = (info >> 14) & 1
-                pos = 4 * ts
-                wf = (info >> 15) == 0 and len(body) >= pos + (4 if pb in (0, 2) else 0)
-                if wf and pb in (0, 2):
-                    w = int.from_bytes(body[pos + 2:pos + 4], 'little')
-                    wf = ((w >> 12) & 3) == 0
-                out.append((b, wf))
-            elif r == 4:
-                h = rng.below(65536)
-                b = bytes([2]) + h.to_bytes(2, 'little') + len(data).to_bytes(2, 'little') + data
-                if rng.chance(1, 5):
-                    b = b[:-1] if data else b + b'\x00'
-                    out.append((b, False))
-                else:
-                    out.append((b, True))
+        if r == 0:
+            out.append(('fields', 'acl', (rng.choice(H12), rng.below(4), rng.below(4), len(data), data)))
+        elif r == 1:
+            data = data[:255]
+            out.append(('fields', 'sco', (rng.choice(H12), rng.below(4), len(data), data)))
+        elif r == 2:
+            pb = rng.below(4)
+            ts = rng.choice([None, 0, 1, 0xFFFFFFFF, 0x01020304])
+            sdu = None
+            if pb in (0, 2):
+                sdu = (rng.choice([0, 1, 0xFFFF, 0x0102]), rng.choice([0, 1, 0xFFF, 0x123, len(data)]), rng.below(4))
+            out.append(('fields', 'iso', (rng.choice(H12), pb, rng.choice([len(data), 0, 0x3FFF]), ts, sdu, data)))
+        elif r == 3:
+            # raw ISO with any header words; well-formed when the reserved bits are zero
+            info = rng.below(65536)
+            total = rng.below(65536)
+            body = rng.bytes(rng.below(14))
+            b = bytes([5]) + info.to_bytes(2, 'little') + total.to_bytes(2, 'little') + body
+            pb = (info >> 12) & 3
+            ts = (info >> 14) & 1
+            pos = 4 * ts
+            wf = (info >> 15) == 0 and len(body) >= pos + (4 if pb in (0, 2) else 0)
+            if wf and pb in (0, 2):
+                w = int.from_bytes(body[pos + 2:pos + 4], 'little')
+                wf = ((w >> 12) & 3) == 0
+            out.append(('raw', b, wf))
+        elif r == 4:
+            h = rng.below(65536)
+            b = bytes([2]) + h.to_bytes(2, 'little') + len(data).to_bytes(2, 'little') + data
+            if rng.chance(1, 5):
+                out.append(('raw', b[:-1] if data else b + b'\x00', False))
             else:
-                h = rng.below(65536)
-                data = data[:255]
-                b = bytes([3]) + h.to_bytes(2, 'little') + bytes([len(data)]) + data
-                if rng.chance(1, 5):
-                    out.append((b + b'\x01', False))
-                else:
-                    out.append((b, (h >> 14) == 0))
-        except Exception:
-            continue
+                out.append(('raw', b, True))
+        else:
+            h = rng.below(65536)
+            data = data[:255]
+            b = bytes([3]) + h.to_bytes(2, 'little') + bytes([len(data)]) + data
+            if rng.chance(1, 5):
+                out.append(('raw', b + b'\x01', False))
+            else:
+                out.append(('raw', b, (h >> 14) == 0))
     # short headers
     for t in (1, 2, 3, 4, 5):
         for ln in range(0, 5):
-            out.append((bytes([t]) + bytes(ln), False))
+            out.append(('raw', bytes([t]) + bytes(ln), False))
     return out
 
 
+def build_data_packet(hci, kind, f):
+    """-> (object, Coq term of the model packet)"""
+    if kind == 'acl':
+        h, pb, bc, total, data = f
+        return (hci.HCI_AclDataPacket(h, pb, bc, total, data), f'PAcl {h} {pb} {bc} {total} {_cb(data)}')
+    if kind == 'sco':
+        h, st, total, data = f
+        return (hci.HCI_SynchronousDataPacket(h, hci.HCI_SynchronousDataPacket.Status(st), total, data),
+                f'PSco {h} {st} {total} {_cb(data)}')
+    h, pb, total, ts, sdu, data = f
+    obj = hci.HCI_IsoDataPacket(connection_handle=h, data_total_length=total, iso_sdu_fragment=data, pb_flag=pb,
+                                time_stamp=ts, packet_sequence_number=sdu[0] if sdu else None,
+                                iso_sdu_length=sdu[1] if sdu else None, packet_status_flag=sdu[2] if sdu else None)
+    cts = f'(Some {ts})' if ts is not None else 'None'
+    csdu = f'(Some ({sdu[0]}, {sdu[1]}, {sdu[2]}))' if sdu else 'None'
+    return obj, f'PIso {h} {pb} {total} {cts} {csdu} {_cb(data)}'
+
+
 # ----------------------------------------------------------------------------- hand-written classes
+def phy_names(info):
+    head, idx, row = info.phy
+    return [n for n, _ in head] + [n for n, _ in row]
+
+
+def phy_flat(info, kw):
+    """keyword values of a PHY-mask command -> the model's flat value list: head values, then
+    the per-PHY items one after the other (as many as the mask has bits)"""
+    head, idx, row = info.phy
+    out = [canon_atom(a, kw[n]) for n, a in head]
+    k = bin(int(kw[head[idx][0]])).count('1')
+    for i in range(k):
+        for n, a in row:
+            out.append(canon_atom(a, kw[n][i]))
+    return out
+
+
 def gen_custom(rng, hci, info):
     phys = rng.choice([0, 1, 2, 4, 3, 5, 7])
     n = bin(phys).count('1')
@@ -1084,6 +1205,8 @@ def search(ctx):
             continue
         for _ in range(400 if info.name in named else 40):
             vals = gen_fields(rng, hci, info.fields)
+            if info.selector:
+                vals[0] = rng.choice(info.selector)     # in contract: an id the vendor factory selects on
             wrap = None
             if info.kind == T.KIND_RETURN:
                 if info.status_first and info.fields:
@@ -1104,7 +1227,23 @@ def search(ctx):
                 ctx.violation(bad[0], bad[1], {'kind': 'fields', 'class': info.name, 'values': js(vals),
                                                'num': 1, 'op': op if info.kind == T.KIND_RETURN else None})
                 return
-    for b, wf in gen_data_packets(rng, hci, 3000):
+    for entry in gen_data_packets(rng, hci, 3000):
+        if entry[0] == 'fields':
+            try:
+                obj, _ = build_data_packet(hci, entry[1], entry[2])
+                ib = bytes(obj)
+                p2 = hci.HCI_Packet.from_bytes(ib)
+                ok = type(p2) is type(obj) and p2 == obj and bytes(p2) == ib
+            except Exception:
+                ok = False
+            if not ok and not (entry[1] == 'iso' and entry[2][4] and entry[2][4][2] > 3):
+                f = entry[2]
+                ctx.violation(f'{entry[1]}.fields', f'{entry[1]} packet built from {f!r} does not round-trip',
+                              {'kind': 'data-fields', 'packet': entry[1],
+                               'fields': js(list(f) if not isinstance(f[-2], tuple) else [*f[:-2], list(f[-2]), f[-1]])})
+                return
+            continue
+        b, wf = entry[1], entry[2]
         if wf:
             p = impl_parse(hci, b)
             if p is None or impl_bytes(p) != b:
@@ -1126,6 +1265,38 @@ def replay(ctx, obj):
             print('oracle:', 'holds' if b2 == b else 'VIOLATED: re-serialised bytes differ from the input')
         else:
             print('oracle: VIOLATED: well-formed packet rejected')
+        return 0
+    if r['kind'] == 'synthetic':
+        pyfields = SYNTHETIC_FIELDS[r['index']]
+        fields = T.fields_of(hci, pyfields, 'synthetic')
+        vals = unjs(r['values'])
+        ib = bytes(hci.HCI_Object(pyfields, **kwargs_of(hci, fields, vals)))
+        try:
+            back = canon_obj(fields, type('O', (), hci.HCI_Object.dict_from_bytes(ib, 0, pyfields))())
+        except Exception as e:
+            back = 'rejected: ' + type(e).__name__
+        print('values:', vals, '\nbytes:', ib.hex(), '\nparsed back:', back)
+        print('oracle:', 'holds' if back == vals else 'VIOLATED: field values differ after the round trip')
+        return 0
+    if r['kind'] == 'data-fields':
+        f = unjs(r['fields'])
+        if r['packet'] == 'iso':
+            f = [*f[:4], tuple(f[4]) if f[4] is not None else None, f[5]]
+        obj, _ = build_data_packet(hci, r['packet'], tuple(f))
+        ib = impl_bytes(obj)
+        p2 = impl_parse(hci, ib) if ib is not None else None
+        print('built:', obj, '\nbytes:', ib.hex() if ib else None, '\nparsed back:', p2)
+        ok = p2 is not None and type(p2) is type(obj) and p2 == obj and impl_bytes(p2) == ib
+        print('oracle:', 'holds' if ok else 'VIOLATED: the data packet does not round-trip')
+        return 0
+    if r['kind'] == 'pair':
+        b1, b2 = bytes.fromhex(r['first']), bytes.fromhex(r['second'])
+        p1 = impl_parse(hci, b1)
+        before = impl_bytes(p1)
+        impl_parse(hci, b2)
+        after = impl_bytes(p1)
+        print('first packet serialised before / after parsing the second:', before.hex(), '/', after.hex())
+        print('oracle:', 'holds' if before == after else 'VIOLATED: an earlier packet changed when a later one was parsed')
         return 0
     if r['kind'] == 'sweep':
         b = bytes.fromhex(r['hex'])
